@@ -4,6 +4,7 @@ import (
 	"fmt"
 	"go/types"
 	"os"
+	"sort"
 	"regexp"
 	"strconv"
 	"strings"
@@ -96,7 +97,7 @@ func rulePrefix(c *Ctx, prefix string, want map[string]bool) {
 		if s, ok := in.(*ssa.Store); ok {
 			if fa, ok := s.Addr.(*ssa.FieldAddr); ok && fieldName(fa) == "IaId" && namedOf(fa.X.Type()) == pkgDHCP6+".OptIAPD" {
 				v := ex.Canon(st, s.Val).S
-				if regexp.MustCompile(`IAPD\(` + inner + `\.Options\)\[\(φ(?:[\w$]+·)?t\d+ \+ 1\)\]\.IaId$`).MatchString(v) {
+				if regexp.MustCompile(`IAPD\(` + inner + `\.Options\)\[` + idxRe + `\]\.IaId$`).MatchString(v) {
 					return "iaid-ok"
 				}
 				return "iaid-other:" + v
@@ -160,7 +161,7 @@ func rulePrefix(c *Ctx, prefix string, want map[string]bool) {
 			if al, ok := ex.Resolve(st, call.Call.Args[1]).(*ssa.UnOp); ok {
 				_ = al
 			}
-			if m := regexp.MustCompile(`^new@(t\d+)$`).FindStringSubmatch(a); m != nil {
+			if m := regexp.MustCompile(`^new@((?:[\w$]+·)?t\d+)$`).FindStringSubmatch(a); m != nil {
 				p, _ := st.ReadLocal("new@" + m[1] + ".Prefix")
 				if regexp.MustCompile(`^` + allocRe + `#0$`).MatchString(p) {
 					isNew = true
@@ -217,7 +218,7 @@ func rulePrefix(c *Ctx, prefix string, want map[string]bool) {
 				counts["allocate"]++
 				// REUSE-FIRST: only for hints no known lease satisfied: Test(satisfied, <index of the hint being allocated>) == false
 				arg := ex.Canon(st, x.Call.Args[0]).S
-				im := regexp.MustCompile(`\[(\(φ(?:[\w$]+·)?t\d+ \+ 1\))\]\.Prefix$`).FindStringSubmatch(arg)
+				im := regexp.MustCompile(`\[(\(φ(?:[\w$]+·)?t\d+ \+ 1\)|φ(?:[\w$]+·)?t\d+)\]\.Prefix$`).FindStringSubmatch(arg)
 				okT := false
 				if im != nil {
 					for _, k := range sortedKeys(st.hist) {
@@ -255,6 +256,9 @@ func rulePrefix(c *Ctx, prefix string, want map[string]bool) {
 			counts["addopt"]++
 			al, _ := unbox(addOpt.Call.Args[0]).(*ssa.Alloc)
 			if al == nil {
+				al, _ = unbox(ex.ResolveDeep(st, unbox(addOpt.Call.Args[0]))).(*ssa.Alloc)
+			}
+			if al == nil {
 				addb("PD.ONE-PER-IAPD", "the option added is not the IA_PD literal built in this iteration")
 				return
 			}
@@ -288,6 +292,14 @@ func rulePrefix(c *Ctx, prefix string, want map[string]bool) {
 			counts["iter"]++
 			if !st.seen["addopt"] || st.seen["addopt+"] {
 				addb("PD.ONE-PER-IAPD", "an iteration over the request's IA_PD options does not add exactly one response IA_PD")
+			}
+			if os.Getenv("CDLINT_DEBUG_KEEP") != "" {
+				var ls []string
+				for l := range st.seen {
+					ls = append(ls, l)
+				}
+				sort.Strings(ls)
+				fmt.Fprintf(os.Stderr, "KEEPDBG outer back edge seen=%v\n", ls)
 			}
 			if st.seen["newlease"] && !st.seen["recorded"] {
 				addb("KEEP.RECORD-ALL", "a newly allocated lease is sent to the client in an iteration that does not record it")
@@ -348,7 +360,7 @@ func rulePrefix(c *Ctx, prefix string, want map[string]bool) {
 		}
 		// leaving from inside an IA_PD iteration must stop the chain
 		if info.LoopOf[outer][in.Block().Index] {
-			if k, ok := ex.Resolve(st, ret.Results[1]).(*ssa.Const); !ok || constStr(k) != "true" {
+			if k, ok := ex.ResolveDeep(st, ret.Results[1]).(*ssa.Const); !ok || constStr(k) != "true" {
 				addb("PD.ONE-PER-IAPD", fmt.Sprintf("return at %s from inside the IA_PD loop without stopping the chain: later IA_PDs stay unanswered", c.P.InstrPos(in)))
 			}
 		}
@@ -469,8 +481,26 @@ func checkAccumulator(c *Ctx, addb func(rule, s string), v ssa.Value, at ssa.Ins
 			addb("KEEP.RECORD-ALL", fmt.Sprintf("new leases are appended at %s to a value that is not the running accumulator (%s): leases allocated earlier in the same exchange are dropped from the record", c.P.InstrPos(call), shortName(base.String())))
 			continue
 		}
+		// phi-closure of the accumulator: the values that can flow into it through merges
+		var flows []ssa.Value
+		seenPhi := map[*ssa.Phi]bool{}
+		var walk func(p *ssa.Phi)
+		walk = func(p *ssa.Phi) {
+			if seenPhi[p] {
+				return
+			}
+			seenPhi[p] = true
+			for _, e := range p.Edges {
+				if q, ok := e.(*ssa.Phi); ok {
+					walk(q)
+				} else {
+					flows = append(flows, e)
+				}
+			}
+		}
+		walk(ph)
 		self := false
-		for _, e := range ph.Edges {
+		for _, e := range flows {
 			if e == ssa.Value(call) {
 				self = true
 			}
@@ -480,7 +510,7 @@ func checkAccumulator(c *Ctx, addb func(rule, s string), v ssa.Value, at ssa.Ins
 		}
 		// the accumulator is seeded with the known leases
 		seeded := false
-		for _, e := range ph.Edges {
+		for _, e := range flows {
 			if lk, ok := e.(*ssa.Lookup); ok {
 				seeded = true
 				// read-modify-write per iteration: the record must be re-read in every loop
